@@ -18,7 +18,7 @@ def live_set(c):
 
 class P(Prop):
     pid = "C16"
-    rule = ("random acyclic circuits (1-5 inputs, 1-12 gates, constants, optional flop blackboxes with connected or "
+    rule = ("random circuits, one in five with combinational loops and dead rings (1-5 inputs, 1-12 gates, constants, optional flop blackboxes with connected or "
             "unconnected pins) with outputs unmarked at random so that dead gates, dead chains, unloaded inputs and inputs "
             "loaded only by dead logic occur; both values of `inputs`; non-trivial = at least one node is dead")
     assumptions = ["set-iteration order inside the patched run is the model's ordBy(seed) family"]
@@ -26,8 +26,20 @@ class P(Prop):
 
     def gen_case(self):
         rng = self.rng
+        cyc = rng.random() < 0.2
         c = gen.circuit(rng, n_in=(1, 5), n_gates=(1, 12), p_out=rng.choice([0.1, 0.2, 0.4]), consts=0.25,
-                        out_inputs=0.05)
+                        out_inputs=0.05, cyclic=cyc)
+        if cyc and rng.random() < 0.6:
+            # a dead ring (no output reachable from it), possibly with a dead tail hanging off it and dead logic feeding it
+            src = rng.choice(sorted(c.graph.nodes))
+            r1 = c.add("zz_r1", rng.choice(["and", "or", "xor"]), fanin=[src], uid=True)
+            r2 = c.add("zz_r2", rng.choice(["buf", "not", "nand"]), fanin=[r1], uid=True)
+            c.connect(r2, r1)
+            if rng.random() < 0.5:
+                c.add("zz_tail", "not", fanin=[r2], uid=True)
+            if rng.random() < 0.3:
+                s1 = c.add("zz_self", "or", fanin=[src], uid=True)
+                c.connect(s1, s1)
         bb = False
         if rng.random() < 0.35:
             gen.add_flops(rng, c, connect_all=rng.random() < 0.5)
@@ -84,6 +96,16 @@ class P(Prop):
             self.fail("search", "raised", f"remove_unloaded raised {o}", case)
             return
         removed_set = set(removed)
+        # K42: the worklist never reaches a dead cycle (its members keep each other loaded) nor dead logic feeding one
+        g0 = c.graph
+        on_cycle = set()
+        for comp in nx.strongly_connected_components(g0):
+            if len(comp) > 1:
+                on_cycle |= comp
+        on_cycle |= {n for n in g0.nodes if g0.has_edge(n, n)}
+
+        def feeds_cycle(n):
+            return n in on_cycle or bool(nx.descendants(g0, n) & on_cycle)
         gone = set(before) - set(c2.graph.nodes)
         if removed_set != gone or len(removed) != len(removed_set):
             self.fail("search", "returned-list", f"returned {removed} but deleted {sorted(gone)}", case)
@@ -99,11 +121,17 @@ class P(Prop):
                               f"inputs=False but {t} {n!r} was deleted", case)
                     return
                 if inputs and t == "input" and dead != (n in gone):
-                    self.fail("search", "inputs-true-input", f"inputs=True: input {n!r} dead={dead} deleted={n in gone}", case)
+                    k42 = ":dead-cycle-kept" if dead and n not in gone and feeds_cycle(n) else ""
+                    self.fail("search", "inputs-true-input" + k42, f"inputs=True: input {n!r} dead={dead} deleted={n in gone}", case)
+                    if k42:
+                        continue
                     return
             else:
                 if dead != (n in gone):
-                    self.fail("search", "dead-mismatch", f"{t} {n!r}: dead={dead} deleted={n in gone}", case)
+                    k42 = ":dead-cycle-kept" if dead and n not in gone and feeds_cycle(n) else ""
+                    self.fail("search", "dead-mismatch" + k42, f"{t} {n!r}: dead={dead} deleted={n in gone}", case)
+                    if k42:
+                        continue
                     return
         for n in c2.graph.nodes:
             now = (dict(c2.graph.nodes[n]), sorted(c2.graph.predecessors(n)))
@@ -128,6 +156,18 @@ class P(Prop):
         c.add("o", "buf", fanin="a", output=True)
         c.add_blackbox(cg.BlackBox("ff", ["d"], ["q", "qn"]), "u", {"d": "a"})
         self.oracle(c, False, "K3-pin")
+        # K42: a dead ring g1 <-> g2 and a dead self-loop are never removed
+        c = cg.Circuit()
+        c.add("a", "input")
+        c.add("o", "buf", fanin="a", output=True)
+        c.add("b", "input")
+        c.add("g1", "and", fanin=["b"])
+        c.add("g2", "buf", fanin="g1")
+        c.connect("g2", "g1")
+        c.add("s", "or", fanin=["a"])
+        c.connect("s", "s")
+        self.oracle(c, False, "K42")
+        self.oracle(c, True, "K42")
 
     def search(self, n):
         for i in range(n):
